@@ -8,7 +8,12 @@ PDU - and is read from the abstract transition systems:
 (b) source, every step from sending file data to awaiting Finished: a valid NAK is served;
 (c) destination: Metadata is consumed while waiting for metadata, File Data while waiting for
     missing data; source: a Finished PDU is accepted while the EOF is still unacknowledged;
-(d) both positive-ACK waits re-send on expiry (evaluated under C04-R1)."""
+(d) both positive-ACK waits re-send on expiry (evaluated under C04-R1).
+R2 (necessary condition for recovery, definite when it fails): in the product of the two abstract
+transition systems over an abstract link, under the property's premise that no expiration limit is
+reached, successful completion of both sides stays reachable after dropping any single PDU at any
+point of a fault-free acknowledged transfer.  The product over-approximates the pair, so a drop
+after which completion is unreachable can never be recovered by the real handlers either."""
 from __future__ import annotations
 
 from ..atsq import ename, mode_of, state_of, step_of
@@ -78,6 +83,56 @@ def check(ctx: Ctx, ev: Evidence) -> list[Finding]:
         ev.inst("C03-R1c", f"{name}: {ok}", "ok" if ok else "violation")
         if not ok:
             out.append(Finding("C03-R1c", key, msg, "", witness_of(src, fin_edge) if "Finished" in name and fin_edge is not None else None))
+    out += single_drop_recoverability(ctx, ev, src, dst)
     ev.extra["explanation"] = "acceptance matrix (step x retransmitted PDU kind) read from the abstract transition systems of both handlers; recovery/liveness under fault schedules is NOT decided"
     ev.assume("the surrounding entity acknowledges EOF PDUs of transactions the addressed handler already closed (acknowledge_inactive_eof_pdu, C20-R3)")
+    return out
+
+
+def single_drop_recoverability(ctx: Ctx, ev: Evidence, src, dst) -> list[Finding]:
+    from ..product import PState, Product
+    out: list[Finding] = []
+    ev.rule("C03-R2", "product of both ATSs over an abstract link: after dropping any single PDU of an acknowledged transfer, completion of both sides remains reachable without any limit fault", 20)
+    for closure in (False, True):
+        P = Product(src, dst, "ACKNOWLEDGED", closure, "file")
+        starts = P.initial()
+        if not starts:
+            raise AnalysisError("product: no acknowledged put_request edge from the initial state")
+        g, _seen = P.explore(starts, max_states=1500000)
+        good = P.can_reach_goal(g)
+        if not any(s in good for s in starts):
+            out.append(Finding("C03-R2", f"product | acknowledged transfer (closure={closure}) cannot complete even without faults",
+                               "the two abstract transition systems cannot run a fault-free acknowledged transfer to successful completion of both sides", ""))
+            ev.inst("C03-R2", f"closure={closure}: fault-free completion reachable: False", "violation")
+            continue
+        drops: dict = {}
+        for st in list(g):
+            if st not in good:
+                continue
+            for ch, name in ((st.sd, "sd"), (st.ds, "ds")):
+                if ch:
+                    nst = PState(st.s, st.d, st.sd[1:] if name == "sd" else st.sd, st.ds[1:] if name == "ds" else st.ds, st.bits)
+                    drops.setdefault(nst, (ch[0][0], st))
+        n0 = len(g)
+        g2, _ = P.explore(list(drops), max_states=3000000, known=g)
+        good2 = P.can_reach_goal(g2)
+        per: dict[tuple, list[int]] = {}
+        for nst, (kind, st) in drops.items():
+            k = (kind, step_of(src, src.h.watch(src.nodes[st.s])), step_of(dst, dst.h.watch(dst.nodes[st.d])))
+            c = per.setdefault(k, [0, 0])
+            c[0] += 1
+            if nst not in good2:
+                c[1] += 1
+        bad_kinds: dict[str, list[str]] = {}
+        for (kind, ss, ds), (n, nb) in sorted(per.items()):
+            ev.inst("C03-R2", f"closure={closure}: {kind} dropped with source in {ss}, destination in {ds}: {n - nb} of {n} abstract situations can still complete", "ok" if nb == 0 else "violation")
+            if nb:
+                bad_kinds.setdefault(kind, []).append(f"{ss}/{ds}")
+        for kind, where in bad_kinds.items():
+            out.append(Finding("C03-R2", f"product | a dropped {kind} PDU is unrecoverable",
+                               f"acknowledged transfer (closure={closure}): after a single dropped {kind} PDU (source/destination steps {sorted(set(where))[:4]}) successful completion of both sides is unreachable "
+                               f"in the product of the two transition systems, although no expiration limit is reached: the fault can never be recovered", ""))
+        ev.extra.setdefault("product", {})[f"acknowledged, closure={closure}"] = {"fault_free_states": n0, "states_with_single_drop": len(g2), "drop_points": len(drops), "channel_truncations": P.truncated}
+    ev.assume("product model: the link delivers PDUs in order; users retrieve every queued PDU after every call; bursts of equal PDUs are collapsed; channels hold at most 3 distinct consecutive PDUs (longer backlogs are cut)")
+    ev.assume("premise of C03: every expiration limit exceeds the number of faults, so paths that declare a limit fault are excluded")
     return out
